@@ -25,6 +25,12 @@ package service
 // segment (service/hls.GetTS looks the stream up under everything before the last '/')
 //@ spec func deliveredStream(rp string) string = iteStr(exExt(rp) == ".ts" && lastSlashIdx(exPath(rp)) >= 0, exPath(rp)[:lastSlashIdx(exPath(rp))], exPath(rp))
 // the configuration guide's "user u may <right> path" (meaning of patterns: C16), the user table, the user a token named
+// a WebSocket upgrade is not an HLS request: onWebSocketRequest opens the connection for the WHOLE path without its
+// extension, whatever the extension is (a WSP session then plays that path with no further check), so that is the stream
+// an upgrade delivers; isUpgrade is the test onStreamsRequest dispatches on
+//@ spec func lowerOf(s string) string = uninterpreted
+//@ spec func isUpgrade(r *http.Request) bool = r.Method == "GET" && lowerOf(hdr(r.Header, "Connection")) == "upgrade" && lowerOf(hdr(r.Header, "Upgrade")) == "websocket"
+//@ spec func deliveredBy(r *http.Request) string = iteStr(isUpgrade(r), exPath(r.URL.Path), deliveredStream(r.URL.Path))
 //@ spec func permits(u *auth.User, path string, right auth.AccessRight) bool = uninterpreted
 //@ spec func userNamed(name string) *auth.User = uninterpreted
 //@ spec func hdr(h http.Header, key string) string = uninterpreted
@@ -57,11 +63,12 @@ package service
 //@   requires r != nil && r.URL != nil && r.Header != nil
 //@   modifies misc(w)
 //@   local streamPath string
-//@   assert[call:ValidatePermission] streamPath == deliveredStream(r.URL.Path)
-//@   ensures ok ==> userNamed(hdr(r.Header, usernameHeaderKey)) != nil && permits(userNamed(hdr(r.Header, usernameHeaderKey)), deliveredStream(r.URL.Path), auth.PullRight)
+//@   assert[call:ValidatePermission] streamPath == deliveredBy(r)
+//@   ensures ok ==> userNamed(hdr(r.Header, usernameHeaderKey)) != nil && permits(userNamed(hdr(r.Header, usernameHeaderKey)), deliveredBy(r), auth.PullRight)
 
 //@ extern func strings.ToLower(s string) (r string)
 //@   modifies
+//@   ensures sameStr(r, lowerOf(s))
 //@ extern func (w http.ResponseWriter) Header() (h http.Header)
 //@   modifies
 //@ extern func (h http.Header) Set(key string, value string) ()
@@ -80,17 +87,29 @@ package service
 //@   modifies
 //@ extern func http.NotFound(w http.ResponseWriter, r *http.Request) ()
 //@   modifies misc(w)
+//@ extern func websocket.TryUpgrade(w http.ResponseWriter, r *http.Request, path string, username string) (c websocket.Conn, ok bool)
+//@   modifies misc(w), ghostAll("misc")
+//@   ensures ok ==> c != nil
+//@ extern func (c websocket.Conn) Subprotocol() (p string)
+//@   modifies
+// the connection is opened for the path extractStreamPathAndExt yields - the whole request path without its extension
 //@ func (s *Service) onWebSocketRequest(w http.ResponseWriter, r *http.Request) ()
-//@   trusted
+//@   requires s != nil && r != nil && r.URL != nil && r.Header != nil && s.rtsp != nil && s.wsp != nil && s.rtsp.OnAccept != nil && s.wsp.OnAccept != nil
 //@   modifies all()
+//@   local streamPath string
+//@   assert[call:TryUpgrade] sameStr(streamPath, exPath(r.URL.Path))
 
 // the handler hands each service exactly the path the interceptor derived the checked stream from: <stream> for FLV and
 // playlists, <stream>/<seq> for segments (hls.GetTS: contract in package service/hls)
 //@ func (s *Service) onStreamsRequest(w http.ResponseWriter, r *http.Request) ()
-//@   requires s != nil && r != nil && r.URL != nil && r.Header != nil && w != nil
+//@   requires s != nil && r != nil && r.URL != nil && r.Header != nil && w != nil && s.rtsp != nil && s.wsp != nil && s.rtsp.OnAccept != nil && s.wsp.OnAccept != nil
 //@   modifies all()
 //@   local streamPath string
 //@   local ext string
+//@   assert[call:onWebSocketRequest] isUpgrade(r)
+//@   assert[call:ConsumeByHTTP] !isUpgrade(r)
+//@   assert[call:GetM3u8] !isUpgrade(r)
+//@   assert[call:GetTS] !isUpgrade(r)
 //@   assert[call:ConsumeByHTTP] sameStr(streamPath, exPath(r.URL.Path)) && ext == ".flv" && sameStr(ext, exExt(r.URL.Path))
 //@   assert[call:GetM3u8] sameStr(streamPath, exPath(r.URL.Path)) && ext == ".m3u8" && sameStr(ext, exExt(r.URL.Path))
 //@   assert[call:GetTS] sameStr(streamPath, exPath(r.URL.Path)) && ext == ".ts" && sameStr(ext, exExt(r.URL.Path))
@@ -115,4 +134,4 @@ package service
 //@ func (s *Service) streamInterceptor(w http.ResponseWriter, r *http.Request) (ok bool)
 //@   requires s != nil && r != nil && r.URL != nil && r.Header != nil && w != nil
 //@   modifies misc(w), misc(r.Header), ghostAll("misc")
-//@   ensures ok && authOn() ==> userNamed(hdr(r.Header, usernameHeaderKey)) != nil && permits(userNamed(hdr(r.Header, usernameHeaderKey)), deliveredStream(r.URL.Path), auth.PullRight)
+//@   ensures ok && authOn() ==> userNamed(hdr(r.Header, usernameHeaderKey)) != nil && permits(userNamed(hdr(r.Header, usernameHeaderKey)), deliveredBy(r), auth.PullRight)
